@@ -152,7 +152,7 @@ def r2(ctx):
         raise AnalysisError(f"compute_lambda_sum is not a two-branch function any more: {str(rt)[:100]}")
     scalar = matrix = None
     for g, v in rt.pieces:
-        if any(isinstance(x, App) and x.fn == "numpy.sum" for x in tm.subterms(v)):
+        if any(isinstance(x, Idx) and x.base == lam for x in tm.subterms(v)):
             matrix = (g, v)
         else:
             scalar = (g, v)
